@@ -42,12 +42,13 @@ def sha(data: bytes) -> str:
 
 def main(argv):
     seed, n, workdir = int(argv[0]), int(argv[1]), argv[2]
+    deep = len(argv) > 3 and argv[3] == "deep"
     import flow.record.fieldtypes as ft
     from flow.record import RecordDescriptor, RecordReader, RecordWriter
     from flow.record.selector import CompiledSelector, Selector
 
     rng = random.Random(seed)
-    specs = model.make_specs(rng, n)
+    specs = model.make_specs(rng, n, deep)
     GEN = "2024-01-02T03:04:05.000678+00:00"
     T = RecordDescriptor("verif/c13ts", [("datetime", "ts"), ("datetime", "ts2"), ("varint", "i"), ("string", "s")])
     L = RecordDescriptor("verif/c13list", [("datetime[]", "tl"), ("varint", "i")])
@@ -198,7 +199,7 @@ def main(argv):
         try:
             if a is None or a.utcoffset() is None:
                 raise ValueError("unset or naive value: nothing to shift")
-            ref = model.build(specs[k], None) if specs[k]["form"] == "obj" else _dt.datetime(*model.observe_dt(a)[:7], tzinfo=_dt.timezone(
+            ref = model.build(specs[k], None) if specs[k]["form"] in ("obj", "objsub") else _dt.datetime(*model.observe_dt(a)[:7], tzinfo=_dt.timezone(
                 _dt.timedelta(microseconds=model.observe_dt(a)[7])))
             if ref.tzinfo is None:
                 ref = ref.replace(tzinfo=_dt.timezone.utc)
